@@ -144,7 +144,7 @@ VisitVerdict(c) ==
       ownPkg == prog.pkg = "d" \/ "CtorAnyPkg" \in Deviations
       ctorsOfType == IF c.stmt \in {"litRec", "newRec", "varRec"} THEN {"newRec"}
                      ELSE IF OnT2(c.stmt) /\ ~("CtorAnyType" \in Deviations) THEN {"NewT2"} ELSE Range(prog.ann.ctors)
-      \* package u declares a type of its own that is also called T, with constructors NewT and MakeT (TwinCtors)
+      \* when package u has a function NewT / MakeT it also declares a type of its own called T with those constructors (TwinCtors)
       twinExempt == "CtorByBareName" \in Deviations /\ prog.pkg = "u" /\ cur \in TwinCtors
       exempt == (ownPkg /\ cur \in ctorsOfType) \/ twinExempt
       \* PtrAliasIsValue: a variable whose type is an alias of a pointer type is taken for an instance
